@@ -17,6 +17,7 @@ virtual-field write overflow witness.  The arithmetic theorem `C04_no_overflow` 
 `bounds`' (Emboss/Properties/C04Arith.lean), imported after the merge.
 """
 import collections
+import time
 import json
 
 from harness.lib import common, cppdrv, viewcorr
@@ -34,6 +35,9 @@ def _commands(r, case, tier, op_obs="OBS"):
 
 def _run_cases(chk, cases, r, tier, stats, label, op_obs="OBS"):
     for case in cases:
+        if len(chk.violations) >= 12:
+            chk.extra["stopped_early"] = "12 violations reported; remaining cases not run"
+            break
         cmds = _commands(r, case, tier, op_obs)
 
         def on_crash(cmd, rr, case=case):
@@ -43,7 +47,7 @@ def _run_cases(chk, cases, r, tier, stats, label, op_obs="OBS"):
                                     "observed": "%s: %s" % (rr.kind, (rr.err or "")[:1500]),
                                     "expected": "no sanitizer report, no EMBOSS_CHECK abort on the checked API"},
                           key=key)
-        answers = viewcorr.run_surviving(case, cmds, on_crash)
+        answers = viewcorr.run_surviving(case, cmds, on_crash, max_crashes=6)
         for c, a in zip(cmds, answers):
             if a is None:
                 continue
@@ -74,8 +78,9 @@ def _run(chk, tier):
     r = common.rng("C04")
     quick = tier == "quick"
     stats = collections.Counter()
-    cases, dist = viewcorr.make_cases(chk, r, 12 if quick else 80, corpus_prop=PROP,
-                                      null_order_modules=1 if quick else 6)
+    cases, dist = viewcorr.make_cases(chk, r, 9 if quick else 22, corpus_prop=PROP,
+                                      testdata=viewcorr.TESTDATA[:6] if quick else viewcorr.TESTDATA,
+                                      null_order_modules=1 if quick else 4)
     pinned = _pinned(chk)
     builds = [("g++ -std=c++14 -O0", dict(std="c++14", compiler="g++", opt="-O0", defines=()), "OBS")]
     if not quick:
